@@ -48,13 +48,30 @@ def encode_frames(enc, fmt, msg):
     return [wire.parse_yd_tx(p) + (p,) for p in pk]
 
 
+_TIME = {"rng": __import__("random").Random(20240607), "box": None}
+
+
+def _move_time():
+    """Time is no part of the statement: between any two frames the decoder's clock (and the time of day a text line
+    carries) may stand still, move on by milliseconds or hours, or step backwards (NTP / DST corrections, replayed logs)."""
+    if _TIME["box"] is None:
+        from ..lib import decoder_clock_box
+        cm = decoder_clock_box()
+        _TIME["box"] = cm.__enter__()            # stays in force for the life of the shard process
+        _TIME["cm"] = cm
+    r = _TIME["rng"]
+    _TIME["box"]["offset"] += r.choice([0.0, 0.0, 0.0, 0.001, 0.5, 0.8, 2.0, 61.0, 3600.0, -0.5, -1.0, -30.0, -3600.0, -86400.0])
+    return "%02d:%02d:%02d.%03d" % (r.randrange(24), r.randrange(60), r.randrange(60), r.randrange(1000))
+
+
 def feed(dec, fmt, ident, data, raw):
     """Give one frame to the decoder through the matching public entry point."""
+    stamp = _move_time()
     if fmt == "ebyte":
         return dec.decode_tcp(wire.ebyte_frame(ident, data))       # 13-byte frame as a gateway sends it
     if fmt == "usb":
         return dec.decode_usb(raw)
-    return dec.decode_yacht_devices_string("00:00:00.000 R " + raw.decode().strip())
+    return dec.decode_yacht_devices_string(stamp + " R " + raw.decode().strip())
 
 
 def expected_frames(n: int) -> int:
@@ -153,6 +170,10 @@ def run_stub(spec, acc):
                     payload = bytes(rng.randrange(256) for _ in range(max(n - 1, 0))) + (bytes([rng.randrange(1, 256)]) if n else b"")
                     if rep == 0 and n > 2:
                         payload = bytes([0]) + payload[1:]          # leading zero byte must survive too
+                    if idx % 4 == 1:
+                        payload = b"\xff" * len(payload)           # data indistinguishable from padding (a last frame that is 0xFF throughout)
+                    elif idx % 4 == 3 and n > 7:
+                        payload = payload[:-7] + b"\xff" * 6 + payload[-1:]
                 box["payload"] = payload
                 try:
                     frames = encode_frames(enc, fmt, msg)
